@@ -982,8 +982,8 @@ def preprocess_multi_token_sequences(
 
     # Get vocabulary and word frequencies
 
-    seq0 = token_sequences[0]
-    if not type(seq0[0]) in (list, tuple, np.ndarray):
+    seq0 = next((seq for seq in token_sequences if len(seq) > 0), None)
+    if seq0 is not None and not type(seq0[0]) in (list, tuple, np.ndarray):
         token_sequences = [token_sequences]
 
     (
